@@ -26,6 +26,8 @@ THEOREMS = [
     "RedunModel.C32.eval_file_roundtrip",
     "RedunModel.C32.gather_sound",
     "RedunModel.C32.reunite_same_hash",
+    "RedunModel.C32.reunited_is_inflight_same_hash",
+    "RedunModel.C32.finished_namesake_not_reunited",
 ]
 TRUSTED = [
     "modelled, not verified: Python re `.*-(?P<hash>[^-]+)` with re.match (greedy, `.` excludes newline), str.endswith, "
@@ -51,7 +53,12 @@ RULE = ("(names) generated prefix/hash/array triples -> get_batch_job_name, get_
         "out-of-range index; stale error files; (single) the same for per-job input files incl. --no-cache; (gather) generated "
         "in-flight job lists (single, array with/without eval file, unrelated, duplicates, out-of-range child index) on a "
         "real AWSBatchExecutor with faked Batch listing: preexisting_batch_jobs vs model, then _submit's reunite branch: "
-        "pending_batch_jobs vs model and vs the ground truth of which eval hash each Batch job was created for. "
+        "pending_batch_jobs vs model and vs the ground truth of which eval hash each Batch job was created for; (queue) the same "
+        "executor over an in-memory Batch client (list_jobs honouring jobQueue/jobStatus/arrayJobId, describe_jobs retaining "
+        "finished jobs) holding generated jobs and array children in every status SUBMITTED..FAILED, in this and another queue, "
+        "under this and other name prefixes, always incl. finished namesakes of the jobs then submitted: the table gathered by "
+        "the first _submit vs model gatherQueue, and every attachment must be to an in-flight job of this queue/prefix created "
+        "for the same eval hash, everything else must reach the arrayer. "
         "distinct = distinct payloads; trivial = none")
 LEVEL_TEXT = ("Proved in Lean (full strength, every prefix/hash/list/index): get_hash_from_job_name(get_batch_job_name(p,h,a)) = h "
               "and is_array_job_name = a for every newline-free prefix (also with '-' inside or ending in '-array') and every "
@@ -63,7 +70,9 @@ LEVEL_TEXT = ("Proved in Lean (full strength, every prefix/hash/list/index): get
               "(job_paths_injective, element_paths_distinct); the eval-hash file round trips (eval_file_roundtrip); every "
               "binding gather_inflight_jobs produces, and therefore every job _submit reunites with, is a Batch job whose "
               "name (single) or eval-hash file line at its array index (array child) carries that very eval hash "
-              "(gather_sound, reunite_same_hash). Tied to /repo by running the real scratch/oneshot/executor code in-process.")
+              "(gather_sound, reunite_same_hash); against a queue that still lists finished jobs, a job is attached only to a job or array "
+              "child that is in flight, in the executor's queue and under its name prefix, and a job whose only namesakes are "
+              "finished is submitted afresh (reunited_is_inflight_same_hash, finished_namesake_not_reunited). Tied to /repo by running the real scratch/oneshot/executor code in-process.")
 LEVEL_NOTE = ("partial: equality of remote and local results (pickle round trip, the oneshot entry point, exception "
               "serialisation) is runtime behaviour and is covered by the correspondence only; no cloud service is involved "
               "(AWS Batch calls are faked); K8S/GCP executors use the same scratch and index functions but their own naming, "
@@ -571,6 +580,173 @@ def check_gather(ctx, T, n_worlds, tmp):
     batch.flush(ctx)
 
 
+# ------------------------------------------------------------------ reuniting against a queue with jobs in every status
+ALL_STATUSES = ["SUBMITTED", "PENDING", "RUNNABLE", "STARTING", "RUNNING", "SUCCEEDED", "FAILED"]
+INFLIGHT = ALL_STATUSES[:5]
+
+
+class FakePaginator:
+    def __init__(self, client):
+        self.client = client
+
+    def paginate(self, jobQueue=None, jobStatus=None, arrayJobId=None):
+        if arrayJobId is not None:
+            parent = next(j for j in self.client.jobs if j["jobId"] == arrayJobId)
+            found = [{"jobId": c["jobId"], "status": c["status"], "arrayProperties": {"index": c["index"]}}
+                     for c in parent["children"] if c["status"] == jobStatus]
+        else:
+            found = [{"jobId": j["jobId"], "jobName": j["jobName"], "status": j["status"]}
+                     for j in self.client.jobs if j["queue"] == jobQueue and j["status"] == jobStatus]
+        yield {"jobSummaryList": found[:1]}         # two pages, like the real API may answer
+        yield {"jobSummaryList": found[1:]}
+
+
+class FakeBatchClient:
+    """In-memory AWS Batch: list_jobs honours jobQueue / jobStatus / arrayJobId; describe_jobs knows every job it
+    still retains, finished ones included."""
+
+    def __init__(self, jobs, forgotten=()):
+        self.jobs = jobs
+        self.forgotten = set(forgotten)
+        self.calls = []
+
+    def get_paginator(self, name):
+        assert name == "list_jobs", name
+        return FakePaginator(self)
+
+    def describe_jobs(self, jobs):
+        known = {}
+        for j in self.jobs:
+            known[j["jobId"]] = {"jobId": j["jobId"], "jobName": j["jobName"], "status": j["status"]}
+            for c in j["children"]:
+                known[c["jobId"]] = {"jobId": c["jobId"], "jobName": j["jobName"], "status": c["status"]}
+        return {"jobs": [known[i] for i in jobs if i in known and i not in self.forgotten]}
+
+
+def gen_queue_world(rng, wid, exec_prefix, queue):
+    """Jobs of a Batch queue in every status + ground truth: batch job id -> (eval hash it was created for, listed?)
+    where listed = in flight, in the executor's queue, name starts with the executor's job_name_prefix."""
+    from redun.executors.aws_batch import get_batch_job_name
+    pool = [gen_hex(rng, 40) for _ in range(5)]
+    jobs, truth, evalfiles = [], {}, {}
+    # the scenario the property names: a finished job of an earlier run with the very name a new job would get
+    if rng.random() < 0.7:
+        h = pool[0]
+        st = rng.choice(["SUCCEEDED", "SUCCEEDED", "FAILED"])
+        jobs.append({"jobId": "w%d-old" % wid, "jobName": get_batch_job_name(exec_prefix, h), "queue": queue, "status": st, "children": []})
+        truth["w%d-old" % wid] = (h, False)
+    for k in range(rng.choice([0, 1, 2, 3, 5])):
+        prefix = rng.choice([exec_prefix, exec_prefix, exec_prefix + "-x_y", exec_prefix + "-array", "other-prefix", exec_prefix[:-1]])
+        q = queue if rng.random() < 0.85 else "other-queue"
+        st = rng.choice(ALL_STATUSES)
+        top_listed = q == queue and prefix.startswith(exec_prefix) and st in INFLIGHT
+        if rng.random() < 0.55:
+            h = rng.choice(pool)
+            jid = "w%d-single-%d" % (wid, k)
+            jobs.append({"jobId": jid, "jobName": get_batch_job_name(prefix, h), "queue": q, "status": st, "children": []})
+            truth[jid] = (h, top_listed)
+        else:
+            uid = gen_hex(rng, 32)
+            m = rng.choice([1, 2, 3, 4])
+            hashes = [rng.choice(pool) if rng.random() < 0.5 else gen_hex(rng, 40) for _ in range(m)]
+            jid = "w%d-array-%d" % (wid, k)
+            children = [{"jobId": "%s:%d" % (jid, i), "index": i, "status": rng.choice(ALL_STATUSES)} for i in range(m)]
+            rng.shuffle(children)
+            jobs.append({"jobId": jid, "jobName": get_batch_job_name(prefix, uid, array=True), "queue": q, "status": st, "children": children})
+            if rng.random() < 0.9:
+                evalfiles[uid] = hashes
+                for c in children:
+                    truth[c["jobId"]] = (hashes[c["index"]], top_listed and c["status"] in INFLIGHT)
+    rng.shuffle(jobs)
+    return jobs, truth, evalfiles, pool
+
+
+def check_queue(ctx, T, n_worlds, tmp):
+    from redun.config import Config
+    from redun.executors import aws_batch
+    from redun.executors.aws_batch import AWSBatchExecutor
+    from redun.executors.scratch import SCRATCH_HASHES, get_array_scratch_file
+    from redun.file import File
+    rng = ctx.rng
+    batch = Batch()
+    for w in range(n_worlds):
+        scratch = os.path.join(tmp, "queue%d" % w)
+        exec_prefix = rng.choice(["redun-job", "redun-job", "my-team-redun", "r"])
+        queue = "queue"
+        jobs, truth, evalfiles, pool = gen_queue_world(rng, w, exec_prefix, queue)
+        for uid, hashes in evalfiles.items():
+            with File(get_array_scratch_file(scratch, uid, SCRATCH_HASHES)).open("w") as out:
+                out.write("\n".join(hashes))
+        config = Config({"batch": {"image": "img", "queue": queue, "s3_scratch": scratch, "job_name_prefix": exec_prefix,
+                                   "code_package": False, "aws_region": "us-west-2"}})
+        forgotten = [j["jobId"] for j in jobs if rng.random() < 0.1]
+        client = FakeBatchClient(jobs, forgotten)
+        with mock.patch.object(aws_batch.aws_utils, "get_aws_client", side_effect=lambda service, aws_region=None: client):
+            ex = AWSBatchExecutor("batch", None, config["batch"])
+            ex._scheduler = mock.Mock()
+            ex.arrayer.add_job = mock.Mock()
+
+            def fake_start(ex=ex):
+                ex.is_running = True
+            ex._start = mock.Mock(side_effect=fake_start)
+            snap, real_gather = {}, ex.gather_inflight_jobs
+
+            def gather_and_snapshot(snap=snap, real_gather=real_gather, ex=ex):
+                real_gather()
+                snap.update(ex.preexisting_batch_jobs)
+            ex.gather_inflight_jobs = gather_and_snapshot
+            req = "gatherq %s %s %s %s" % (
+                sx(queue), sx(exec_prefix),
+                "(" + " ".join("(%s %s %s %s (%s))" % (sx(j["jobName"]), sx(j["jobId"]), sx(j["queue"]), j["status"],
+                                                      " ".join("(%s i%d %s)" % (sx(c["jobId"]), c["index"], c["status"]) for c in j["children"]))
+                               for j in jobs) + ")",
+                sx([[uid, hs] for uid, hs in evalfiles.items()]))
+            case = {"kind": "queue", "prefix": exec_prefix, "queue": queue, "jobs": jobs, "eval_files": evalfiles}
+            first = True
+            hashes = list(pool[:3]) + [gen_hex(rng, 40)]
+            rng.shuffle(hashes)
+            for h in hashes:
+                scope = rng.choice(["BACKEND", "BACKEND", "BACKEND", "BACKEND", "CSE", "NONE"])
+                job = make_job(T, "add", ((1,), {}), h, options=None if scope == "BACKEND" else {"cache_scope": scope})
+                ex._submit(job)             # the first submission gathers the in-flight jobs (is_running is False)
+                if first:
+                    first = False
+                    gathered = dict(snap)           # the table right after gather_inflight_jobs, before this job's lookup
+                    ctx.case(key=("queue", req), sample={"jobs": [(j["jobName"], j["status"]) for j in jobs][:4]}, kind="queue-gather",
+                             n_jobs=len(jobs), statuses="+".join(sorted({j["status"] for j in jobs}))[:60])
+
+                    def cmp_gather(mo, impl=gathered, case=case):
+                        m = mo if mo.startswith("!") else {k: v for k, v in unsx(mo)[0]}
+                        if m != impl:
+                            ctx.mismatch("gather_inflight_jobs against the queue: preexisting_batch_jobs differs from model gatherQueue",
+                                         case=case, model=m, impl=impl)
+                    batch.add(req, cmp_gather)
+                    for hh, jid in gathered.items():
+                        if len(hh) == 40 and all(ch in HEX for ch in hh) and truth.get(jid) != (hh, True):
+                            ctx.violation("C32-gather-binds-unlisted-job", "gather_inflight_jobs binds an eval hash to a Batch job that is "
+                                          "not in flight / not in this queue / not under this prefix / created for another hash",
+                                          case=case, expected="only in-flight jobs of the queue created for that hash",
+                                          actual={"hash": hh, "job": jid, "created_for_and_listed": truth.get(jid)})
+                attached = [jid for jid, jb in ex.pending_batch_jobs.items() if jb is job]
+                rcase = dict(case, eval_hash=h, cache_scope=scope)
+                ctx.case(key=("queue-submit", req, h, scope), kind="queue-submit", outcome="attached" if attached else "submitted", scope=scope)
+                for jid in attached:
+                    if truth.get(jid) != (h, True):
+                        ctx.violation("C32-reunite-with-finished-or-foreign-job", "_submit attached a redun job to a Batch job that is finished, "
+                                      "in another queue / under another prefix, or was created for another eval hash", case=rcase,
+                                      expected="a new submission (or an in-flight job created for this eval hash)",
+                                      actual={"attached_to": jid, "status": next((x["status"] for j in jobs for x in [j] + j["children"]
+                                                                                  if x["jobId"] == jid), None), "created_for_and_listed": truth.get(jid)})
+                if attached and scope != "BACKEND":
+                    ctx.violation("C32-reunite-ignores-cache-scope", "job with cache scope %s was reunited" % scope, case=rcase,
+                                  expected="new submission", actual=attached)
+                if (not attached) != (ex.arrayer.add_job.call_args_list[-1:] == [mock.call(job)]):
+                    ctx.violation("C32-reunite-or-submit", "job neither reunited nor handed to the arrayer exactly once", case=rcase,
+                                  expected="exactly one of them", actual={"attached": attached})
+        shutil.rmtree(scratch, ignore_errors=True)
+    batch.flush(ctx)
+
+
 def run(ctx):
     tmp = tempfile.mkdtemp(prefix="verif-c32-")
     moddir = os.path.join(tmp, "mod")
@@ -589,7 +765,8 @@ def run(ctx):
         check_names(ctx, ctx.n(1500, 40000))
         check_arrays(ctx, T, ctx.n(40, 1500), tmp)
         check_singles(ctx, T, ctx.n(150, 5000), tmp)
-        check_gather(ctx, T, ctx.n(60, 2000), tmp)
+        check_gather(ctx, T, ctx.n(40, 1500), tmp)
+        check_queue(ctx, T, ctx.n(60, 1500), tmp)
     finally:
         logging.disable(logging.NOTSET)
         os.environ.update(saved_env)
